@@ -183,14 +183,29 @@ type Sink struct {
 	// Gate, when set, makes the next Write park until the channel is closed and
 	// then fail: a send whose error only surfaces after other traffic went by
 	Gate chan struct{}
+	// GateOK: the parked Write succeeds when released (the transport accepted the
+	// frame but the call returns late) instead of failing
+	GateOK bool
+	Parked bool // a Write is currently parked at the gate
 }
 
 func (s *Sink) Write(p []byte) (int, error) {
 	s.mu.Lock()
 	if g := s.Gate; g != nil {
+		ok := s.GateOK
+		s.Gate = nil // one write parks
+		s.Parked = true
 		s.mu.Unlock()
 		<-g
-		return 0, errors.New("verif: send fails late")
+		s.mu.Lock()
+		s.Parked = false
+		if !ok {
+			s.mu.Unlock()
+			return 0, errors.New("verif: send fails late")
+		}
+		n, err := s.buf.Write(p)
+		s.mu.Unlock()
+		return n, err
 	}
 	defer s.mu.Unlock()
 	if s.Fail {
